@@ -199,6 +199,19 @@ mod imp {
                             ctx.finding(index, &is.class, "known-deviation", t,
                                 json!({"sig": sigs, "value": val.show(), "issue": is.detail}));
                         }
+                        // ... but only the listed deviation is excused: with the two type-level deviations modelled in the reference
+                        // (booleans as 4 aligned bytes, fixed-size tuples not padded) the library's bytes must be EXACTLY the model's,
+                        // so that any other difference in such a value still shows. (The zero-length shape is not modelled.)
+                        if !zero_length_child(val) {
+                            vref::sig::set_gv_quirks(true, true);
+                            let beyond = probe(|| gv_issues(val, pool, e, off));
+                            vref::sig::set_gv_quirks(false, false);
+                            ctx.count("judged_against_deviation_model", 1);
+                            for is in beyond {
+                                ctx.finding(index, &is.class, "beyond-listed-deviation", t,
+                                    json!({"sig": sigs, "value": val.show(), "issue_against_the_deviation_model": is.detail}));
+                            }
+                        }
                     } else {
                         // shrink without ever entering the territory of a listed deviation
                         report_shrunk(ctx, index, &format!("{}@{}:", e.name(), off % 8), val, issues, false,
